@@ -2805,12 +2805,20 @@ define_struct_type(InterrogateType &itype, CPPStructType *cpptype,
       }
 
     } else if ((*di)->get_subtype() == CPPDeclaration::ST_make_property) {
+      if ((*di)->_vis > min_vis) {
+        // The property is not marked to be exported.
+        continue;
+      }
       ElementIndex element_index = get_make_property((*di)->as_make_property(), cpptype, scope);
       if (find(itype._elements.begin(), itype._elements.end(), element_index) == itype._elements.end()) {
         itype._elements.push_back(element_index);
       }
 
     } else if ((*di)->get_subtype() == CPPDeclaration::ST_make_seq) {
+      if ((*di)->_vis > min_vis) {
+        // The sequence is not marked to be exported.
+        continue;
+      }
       MakeSeqIndex make_seq_index = get_make_seq((*di)->as_make_seq(), cpptype);
       itype._make_seqs.push_back(make_seq_index);
     }
